@@ -802,9 +802,9 @@ def check_ctor(case, out):
 
 FACETS = [
     Facet("history-exact", lambda tier: histories("frac", 30 if tier == "quick" else 50), check_history,
-          quick=320, thorough=6000, rule="Fraction knots; model predicts results exactly"),
+          quick=800, thorough=6000, rule="Fraction knots; model predicts results exactly"),
     Facet("history-float", lambda tier: histories("float", 30 if tier == "quick" else 50), check_history,
-          quick=160, thorough=3000, rule="float knots; model compared to 1e-11 relative then re-synchronised"),
-    Facet("constructor", lambda tier: ctor_cases(), check_ctor, quick=3000, thorough=80000,
+          quick=400, thorough=3000, rule="float knots; model compared to 1e-11 relative then re-synchronised"),
+    Facet("constructor", lambda tier: ctor_cases(), check_ctor, quick=6000, thorough=80000,
           rule="arbitrary small-alphabet lists with optional degree"),
 ]
